@@ -71,7 +71,22 @@ def run(ck):
         if waits:
             ok_e, err_e, _ = T.result_split(pp, waits[0].bb)
             okret = [i for i, j, st in pp.statements() if st["s"] == "assign" and st["pl"]["l"] in T.ret_locals(pp) and st["rv"]["r"] == "agg" and st["rv"].get("variant") == "Ok" and not pp.is_cleanup(i)]
-            bad = T.t2_all_exits(pp, [x for _, x in ok_e] or [waits[0].to], [ne.bb], exits=okret)
+            # "no timer is armed" (the wheel's next deadline is None / the wheel is empty) excuses the collection
+            excused = []
+            for c in pp.calls():
+                if pp.is_cleanup(c.bb) or not c.f:
+                    continue
+                if c.name == "next_deadline" and "TimerWheel" in c.f["path"]:
+                    s_, n_ = T.option_split(pp, c.bb)
+                    excused += n_
+                    for c2 in T.calls(pp, name=("is_some", "is_none")):
+                        if T.resolves_to_call(pp, c2.args[0], [c.bb]) and not pp.is_cleanup(c2.bb):
+                            tr_, fa_ = T.bool_split(pp, c2.bb)
+                            excused += fa_ if c2.name == "is_some" else tr_
+                if c.name == "is_empty" and ("TimerWheel" in c.f["path"] or (c.args and T.path_has(pp, c.args[0], ".heap"))):
+                    tr_, fa_ = T.bool_split(pp, c.bb)
+                    excused += tr_
+            bad = T.t2_all_exits(pp, [x for _, x in ok_e] or [waits[0].to], [ne.bb], exits=okret, removed_edges=excused)
             ck.verdict(bad is None, "2", "T2-all-exits", pp, "wait-ok=>timers-collected", "every successful return of Poll::poll has gone through the expired-timer collection", "Poll::poll can return Ok without collecting expired timers (e.g. when IO events were received): an expired timer is starved while fds stay ready", site=pp.where(waits[0].bb), path=path_descr(pp, bad) if bad else None)
         else:
             ck.anchor_missing("2", "T2-all-exits", "Poller::wait call in Poll::poll")
